@@ -232,8 +232,15 @@ func (f *proxyFront) ServeHTTP(w http.ResponseWriter, r *http.Request) {
 
 var proxyBackends = []string{"memory", "postgres"}
 
+const (
+	proxyApp      = "app1"
+	proxyEndpoint = "ep2"
+	proxyManaged  = "/r2" // the route that carries the management labels in the managed flavour
+)
+
 type proxyEnv struct {
 	*adminEnv
+	managed bool // /r2 is labelled application app1 / endpoint_name ep2 (in the application and in the MCP configuration)
 	front   *proxyFront
 	srv     *http.Server
 	addr    string
@@ -242,15 +249,31 @@ type proxyEnv struct {
 	listens int64
 }
 
-func proxyMCPConfig(addr, backend string) string {
+func proxyLabels(managed bool) string {
+	if !managed {
+		return ""
+	}
+	return fmt.Sprintf(" application %q\n endpoint_name %q\n", proxyApp, proxyEndpoint)
+}
+
+func proxyMCPConfig(addr, backend string, managed bool) string {
 	return "ingress { listen \"127.0.0.1:18080\" }\npull_api { listen \"127.0.0.1:19443\"\n auth token \"raw:g1\" }\n" +
 		fmt.Sprintf("admin_api { listen %q }\n", addr) +
 		"queue_retention {\n max_age off\n}\ndelivered_retention {\n max_age 1000h\n}\n" +
-		fmt.Sprintf("/r1 {\n queue { backend %s }\n pull { path /e1 }\n}\n/r2 {\n queue { backend %s }\n pull { path /e2 }\n}\n", backend, backend)
+		fmt.Sprintf("/r1 {\n queue { backend %s }\n pull { path /e1 }\n}\n/r2 {\n%s queue { backend %s }\n pull { path /e2 }\n}\n", backend, proxyLabels(managed), backend)
 }
 
-func newProxyEnv(worker int) (*proxyEnv, error) {
-	e := &proxyEnv{adminEnv: newAdminEnv(500+worker, "memory"), config: map[string]string{}}
+// proxyAppDSL: adminDSL with the management labels on /r2.
+func proxyAppDSL(backend string, port int) string {
+	return strings.Replace(adminDSL(backend, port), "/r2 {\n", "/r2 {\n"+proxyLabels(true), 1)
+}
+
+func newProxyEnv(worker int, managed bool) (*proxyEnv, error) {
+	e := &proxyEnv{adminEnv: newAdminEnv(500+worker, "memory"), managed: managed, config: map[string]string{}}
+	if managed {
+		e.adminEnv = newAdminEnv(600+worker, "memory")
+		e.adminEnv.dsl = proxyAppDSL
+	}
 	e.front = &proxyFront{sys: e.sys}
 	for _, b := range proxyBackends {
 		e.config[b] = filepath.Join(e.dir, "Hookaidofile.mcp-"+b)
@@ -279,7 +302,7 @@ func (e *proxyEnv) listen() error {
 	e.srv, e.addr, e.conns = srv, ln.Addr().String(), 0
 	e.listens++
 	for _, b := range proxyBackends {
-		if err := os.WriteFile(e.config[b], []byte(proxyMCPConfig(e.addr, b)), 0o644); err != nil {
+		if err := os.WriteFile(e.config[b], []byte(proxyMCPConfig(e.addr, b, e.managed)), 0o644); err != nil {
 			return err
 		}
 	}
@@ -422,6 +445,7 @@ type proxyShared struct {
 	ks        []kind
 	filter    []mcpCase
 	byN       map[int][]mcpCase
+	scoped    []mcpCase
 	deadline  time.Time
 	budgetHit atomic.Bool
 	mu        sync.Mutex
@@ -446,6 +470,44 @@ func faultCase(c *mcpCase) bool {
 		return true
 	}
 	return false
+}
+
+// proxyScopedCases: the managed flavour. docs/mcp.md "Managed Selectors": application + endpoint_name select the
+// labelled endpoint's route; the call is forwarded to /applications/{app}/endpoints/{ep}/messages/<op>_by_filter.
+// docs/admin-api.md: a route selector that resolves to a labelled route, and an unscoped selector while labelled
+// routes exist, are rejected (here: either refused with nothing changed, or obeying the model).
+func proxyScopedCases() []mcpCase {
+	var out []mcpCase
+	for _, op := range filterOps {
+		for _, st := range append([]string{""}, statesFor(op.Kind)...) {
+			for _, li := range []optInt{{}, {true, 1}} {
+				for _, pv := range []bool{false, true} {
+					mk := func(label string, expect int, route string, kv ...any) {
+						a := mcpArgs(kv...)
+						if st != "" {
+							a["state"] = st
+						}
+						if li.Set {
+							a["limit"] = li.V
+						}
+						if pv {
+							a["preview_only"] = true
+						}
+						out = append(out, mcpCase{Op: op, Args: a, Expect: expect, Label: label, Filter: true,
+							MOp: qmodel.Op{Kind: op.Kind, Filter: qmodel.Filter{Route: route, State: st, Limit: li.V, Preview: pv}}})
+					}
+					mk("scoped", mustOK, proxyManaged, "application", proxyApp, "endpoint_name", proxyEndpoint)
+					if li.Set {
+						continue
+					}
+					mk("managed-route-by-path", either, proxyManaged, "route", proxyManaged)
+					mk("unscoped-while-managed-routes-exist", either, "")
+					mk("unmanaged-route-by-path", either, "/r1", "route", "/r1")
+				}
+			}
+		}
+	}
+	return out
 }
 
 type popState struct {
@@ -566,9 +628,13 @@ func (e *proxyEnv) runPop(s *proxyShared, pop []int, c *proxyCounters) bool {
 	// pass 1: every case with the undisturbed transport and, for the transport-crossed selectors, every behaviour
 	// for the first forwarded request
 	var later []deeper
-	for _, cs := range interleaveTools(s.filter, s.byN[len(pop)]) {
+	cases := interleaveTools(s.filter, s.byN[len(pop)])
+	if e.managed {
+		cases = interleaveTools(s.scoped)
+	}
+	for _, cs := range cases {
 		backends := proxyBackends[:1]
-		faults := allFaults && cs.Expect != mustReject || faultCase(cs)
+		faults := (allFaults || e.managed) && cs.Expect != mustReject || faultCase(cs)
 		if faults && len(pop) == 2 && cs.Label != "padded" && cs.Label != "duplicate" {
 			backends = proxyBackends // the MCP-side backend dimension: two-message populations, transport-crossed selectors
 		}
